@@ -1038,7 +1038,11 @@ class Crystal(object):
                                             +M[0,2]*(M[1,0]*M[2,1]-M[1,1]*M[2,0]))
 
         groupops = []
-        supercellvect = [np.array(nv) for nv in itertools.product(range(-1,2), repeat=self.dim)
+        # candidate images of the cell vectors: every lattice vector as long as the longest cell vector. In a reduced cell these
+        # all have components in -1..1; a cell kept as given (noreduce) can need more
+        lmax = np.sqrt(max(self.metric[d, d] for d in range(self.dim)))
+        nmax = [max(1, int(lmax * np.sqrt(np.dot(self.invlatt[d], self.invlatt[d])) + 1e-8)) for d in range(self.dim)]
+        supercellvect = [np.array(nv) for nv in itertools.product(*[range(-n, n + 1) for n in nmax])
                          if any(n != 0 for n in nv)]
         matchvect = [[u for u in supercellvect
                       if self.__isclose__(np.dot(u, np.dot(self.metric, u)),
